@@ -94,7 +94,7 @@ impl BrakingPoints {
                     let bp_curr = *self.points.last().unwrap();
 
                     // Update speed limit
-                    while bp_curr.offset <= speed_points[idx].offset {
+                    while idx > 0 && bp_curr.offset <= speed_points[idx].offset {
                         idx -= 1;
                     }
                     let speed_limit = speed_points[idx].speed_limit.abs();
